@@ -177,6 +177,14 @@ func legSem(c *Ctx, rtl bool) {
 				}
 				impl := encMatch(m, err)
 				desc := fmt.Sprintf("pattern %q opts=%s input %+q start=%d -> %v", pat, o, string(in), start, impl)
+				if (start == 0 && !rtl) || (start == len(in) && rtl) {
+					// the string entry point answers the same question (it runs the raw-string prefilter in front)
+					if ms, errs, pans := safeFindString(re, string(in)); pans != "" {
+						c.Add(&Case{Desc: desc, Direct: "FindStringMatch panicked: " + pans, Class: "panic"})
+					} else if es := encMatch(ms, errs); fmt.Sprint(es) != fmt.Sprint(impl) {
+						c.Add(&Case{Desc: "[string entry] " + desc, Direct: fmt.Sprintf("FindStringMatch on the same text returns %v", es), Class: "string-entry"})
+					}
+				}
 				tail := []int64{b2i(rtl), int64(start), -1, semFuel}
 				inA := append(append(encEnv(in, start, o, elab.Sets, elab.Slots), elab.Words...), tail...)
 				c.Add(&Case{Desc: "[elab] " + desc, ModelLeg: 101, ModelIn: inA, ImplOut: impl, Nontrivial: m != nil,
@@ -196,6 +204,16 @@ func legSem(c *Ctx, rtl bool) {
 	for k := ALit; k <= AOptGroup; k++ {
 		c.Gate(fmt.Sprintf("AST kind %d generated", k), modes[fmt.Sprintf("kind%d", k)] > 0)
 	}
+}
+
+func safeFindString(re *regexp2.Regexp, in string) (m *regexp2.Match, err error, pan string) {
+	defer func() {
+		if p := recover(); p != nil {
+			pan = fmt.Sprint(p)
+		}
+	}()
+	m, err = re.FindStringMatch(in)
+	return
 }
 
 func astHasLit(a *Ast, ch rune) bool {
